@@ -77,11 +77,7 @@ def exec_while(it, s, fr):
         c = it.truth(it.eval(s.test, fr))
         d = c if isinstance(c, bool) else it.ctx.decide(c)
         if d is None:
-            key = (it.ctx.func, s.lineno)
-            ann = it.loop_annotations.get(key)
-            if ann is None:
-                raise Unsupported("while loop with symbolic condition and no annotation at %s:%d" % key)
-            return ann(it, s, fr)
+            return havoc_while(it, s, fr, c)
         if not d:
             break
         n += 1
@@ -95,3 +91,47 @@ def exec_while(it, s, fr):
             continue
     if s.orelse:
         it.exec_block(s.orelse, fr)
+
+
+def havoc_while(it, s, fr, cond_now):
+    """`while` with a symbolic condition: partial-correctness rule with the trivial invariant.  Allowed only when the body assigns
+    scalar local names and nothing else (no stores into arrays / attributes, no calls other than pure scalar arithmetic); the assigned
+    names become unconstrained (havoc) and the negated loop condition is assumed at the exit.  Termination is not verified."""
+    assigned = set()
+    for n in ast.walk(ast.Module(body=s.body, type_ignores=[])):
+        if isinstance(n, (ast.Assign, ast.AugAssign, ast.AnnAssign)):
+            targets = n.targets if isinstance(n, ast.Assign) else [n.target]
+            for t in targets:
+                if isinstance(t, ast.Name):
+                    assigned.add(t.id)
+                else:
+                    raise Unsupported("while loop (symbolic condition) storing into %s" % type(t).__name__)
+        elif isinstance(n, (ast.Call, ast.For, ast.While, ast.Return, ast.Raise, ast.Try, ast.With, ast.Delete)):
+            if isinstance(n, ast.Call) and isinstance(n.func, ast.Name) and n.func.id in ("int", "float", "abs", "round"):
+                continue
+            raise Unsupported("while loop (symbolic condition) containing %s" % type(n).__name__)
+        elif isinstance(n, ast.Break):
+            raise Unsupported("break inside a while loop with a symbolic condition")
+    if s.orelse:
+        raise Unsupported("while/else with a symbolic condition")
+    # monotone counters: a name only ever updated by `name += positive literal` keeps  name >= its value at loop entry
+    incr_only = set(assigned)
+    for n in ast.walk(ast.Module(body=s.body, type_ignores=[])):
+        if isinstance(n, ast.Assign) or isinstance(n, ast.AnnAssign):
+            for t in (n.targets if isinstance(n, ast.Assign) else [n.target]):
+                if isinstance(t, ast.Name):
+                    incr_only.discard(t.id)
+        elif isinstance(n, ast.AugAssign) and isinstance(n.target, ast.Name):
+            if not (isinstance(n.op, ast.Add) and isinstance(n.value, ast.Constant) and isinstance(n.value.value, (int, float)) and n.value.value > 0):
+                incr_only.discard(n.target.id)
+    for name in assigned:
+        cur = fr.env.get(name)
+        if cur is None or not is_scalar(cur):
+            raise Unsupported("while loop assigns non-scalar %s" % name)
+        new = it.ctx.fresh_int("havoc_" + name) if is_int_valued(cur) else it.ctx.fresh_real("havoc_" + name)
+        if name in incr_only:
+            it.ctx.assume(cmp(">=", new, cur))
+        fr.env[name] = new
+    c = it.truth(it.eval(s.test, fr))
+    it.ctx.assume(b_not(c))
+    it.ctx.notes.append("while loop at line %d summarised by its exit condition (variables %s havoc; termination not verified)" % (s.lineno, sorted(assigned)))
